@@ -566,10 +566,16 @@ func extractHavingAggregates(having string, aggs map[string]aggregator.Aggregate
 	type span struct{ start, closeParen int }
 	var spans []span
 	var calls []string
+	lastClose := -1
 	for _, m := range pattern.FindAllStringSubmatchIndex(having, -1) {
 		nm := strings.ToLower(having[m[2]:m[3]])
 		fn, ok := functions.Get(nm)
 		if !ok || fn.GetType() != functions.TypeAggregation {
+			continue
+		}
+		// Only outermost aggregate calls are rewritten: a call nested inside an already recorded
+		// span would overlap it, and the back-to-front splice below requires disjoint spans.
+		if m[0] <= lastClose {
 			continue
 		}
 		openParen := m[1] - 1
@@ -577,6 +583,7 @@ func extractHavingAggregates(having string, aggs map[string]aggregator.Aggregate
 		if cp < 0 {
 			continue
 		}
+		lastClose = cp
 		spans = append(spans, span{m[0], cp})
 		calls = append(calls, having[m[0]:cp+1])
 	}
